@@ -176,6 +176,7 @@ func (ex *Exec) applyContract(st *State, ct *Contract, f *types.Func, recv Val, 
 		oldS, newS *SliceV
 	}
 	var wbs []wb
+	var viewWbs []wb
 	for _, m := range ct.Modifies {
 		root, fields := splitPath(m)
 		rv, ok := bind[root]
@@ -227,7 +228,11 @@ func (ex *Exec) applyContract(st *State, ct *Contract, f *types.Func, recv Val, 
 				if os.Tag > 0 {
 					wbs = append(wbs, wb{os, nv.(*SliceV)})
 				} else if os.Tag < 0 {
-					ex.fail("ownership", ex.site("ownership"), fmt.Sprintf("callee %s modifies a sub-slice view", ct.Key), call)
+					if os.ViewTag > 0 && os.Len.IsInt() {
+						viewWbs = append(viewWbs, wb{os, nv.(*SliceV)})
+					} else {
+						ex.fail("ownership", ex.site("ownership"), fmt.Sprintf("callee %s modifies a sub-slice view", ct.Key), call)
+					}
 				}
 			case *ObjV:
 				ex.replaceObj(st, os, nv.(*ObjV))
@@ -262,8 +267,14 @@ func (ex *Exec) applyContract(st *State, ct *Contract, f *types.Func, recv Val, 
 		if !ok {
 			panic(fmt.Errorf("opt result = %s: unknown parameter in %s", rp, ct.Key))
 		}
-		result = v
 		results = []Val{v}
+		for i := 1; i < sig.Results().Len(); i++ {
+			results = append(results, ex.freshVal(st, kindOf(sig.Results().At(i).Type()), fmt.Sprintf("r.%s_%d", ct.Name, i)))
+		}
+		result = v
+		if len(results) > 1 {
+			result = &TupleV{results}
+		}
 	} else if ct.Returns != "" {
 		result = ex.freshByShape(st, ct.Returns, "r."+shortName(strings.TrimSuffix(ct.Key, ".DefineGadget")))
 		results = []Val{result}
@@ -314,6 +325,21 @@ func (ex *Exec) applyContract(st *State, ct *Contract, f *types.Func, recv Val, 
 	for _, w := range wbs {
 		w.newS.Tag = w.oldS.Tag
 		ex.propagateAlias(st, w.oldS, w.newS, nil, nil, call)
+	}
+	// in-place modifications through a sub-slice view are written into the parent backing array
+	for _, w := range viewWbs {
+		parent := ex.findByTag(st, w.oldS.ViewTag)
+		if parent == nil {
+			ex.fail("ownership", ex.site("ownership"), fmt.Sprintf("callee %s modifies a sub-slice view whose parent is not owned here", ct.Key), call)
+			continue
+		}
+		np := parent
+		n := int(w.oldS.Len.Int64())
+		for k := 0; k < n; k++ {
+			np = np.setElem(Add(w.oldS.ViewOff, IntLit(int64(k))), w.newS.elemAt(IntLit(int64(k))))
+		}
+		np.Tag = parent.Tag
+		ex.propagateAlias(st, parent, np, nil, nil, call)
 	}
 	// definitional equalities for symbols created by this call
 	result = ex.eliminateDefs(st, pcMark, freshMark, result)
@@ -726,4 +752,29 @@ func (ex *Exec) pathThroughObj(st *State, r *RefV, accs []Acc) bool {
 		v = ex.access(st, v, a, nil)
 	}
 	return false
+}
+
+// findByTag returns a slice value with the given backing-array tag held by some variable or field.
+func (ex *Exec) findByTag(st *State, tag int) *SliceV {
+	var found *SliceV
+	var rec func(v Val)
+	rec = func(v Val) {
+		if found != nil {
+			return
+		}
+		switch x := v.(type) {
+		case *SliceV:
+			if x.Tag == tag {
+				found = x
+			}
+		case *StructV:
+			for _, fv := range x.F {
+				rec(fv)
+			}
+		}
+	}
+	for _, v := range st.store {
+		rec(v)
+	}
+	return found
 }
